@@ -119,7 +119,7 @@ func (m *Matcher) PreMatch(s []byte) bool {
 	return true
 }
 
-// MatchRegexAndExpand only matches the given key against the "regex" condition,
+// MatchRegexAndExpand only matches the given key against the "regex" and "notRegex" conditions,
 // if it matches then it applies the given template and returns the resulting
 // string as the first return value.
 // The second return value indicates whether the regex matches the given key.
@@ -127,6 +127,9 @@ func (m *Matcher) MatchRegexAndExpand(key, template []byte) (string, bool) {
 	var dst []byte
 	matches := m.regex.FindSubmatchIndex(key)
 	if matches == nil {
+		return "", false
+	}
+	if m.notRegex != nil && m.notRegex.Match(key) {
 		return "", false
 	}
 	return string(m.regex.Expand(dst, template, key, matches)), true
